@@ -399,5 +399,34 @@ func TestC01(t *testing.T) {
 		Assumptions: []string{"exact kernel (internal/exact)", "inputs of the class overlay/operand-cell-unlabelled (open known finding F17) are excluded by class and counted"},
 		Gen:         c01Gen,
 		Check:       c01Check,
+		Enumerate:   c01Enumerate,
 	})
+}
+
+// c01Enumerate: wide operands (130 members in a row) against a small geometry that
+// meets only one of the last two members.
+func c01Enumerate(cx *h.Ctx, yield func(C01Case)) []string {
+	for _, k := range []int{130} { // (the exact overlay oracle needs about 50 s per such case; C02 also runs 260)
+		for _, typ := range []string{gm.MultiLineString, gm.MultiPolygon} {
+			a := gm.G{T: typ}
+			for i := 0; i < k; i++ {
+				x := float64(10 * i)
+				if typ == gm.MultiLineString {
+					a.Mem = append(a.Mem, gm.G{T: gm.LineString, Co: gm.Fs(x, 0, x+4, 4)})
+				} else {
+					a.Mem = append(a.Mem, gm.G{T: gm.Polygon, Rings: [][]gm.F{gm.Fs(x, 0, x+4, 0, x+4, 4, x, 4, x, 0)}})
+				}
+			}
+			for _, j := range []int{k - 1, k - 2} {
+				x := float64(10 * j)
+				for _, b := range []gm.G{
+					{T: gm.LineString, Co: gm.Fs(x-2, 2, x+2, -2)},
+					{T: gm.Polygon, Rings: [][]gm.F{gm.Fs(x+2, 2, x+6, 2, x+6, 6, x+2, 6, x+2, 2)}},
+				} {
+					yield(C01Case{PairCase: PairCase{A: a, B: b, Family: "wide"}})
+				}
+			}
+		}
+	}
+	return []string{"operands of 130 members in a row (MultiLineString, MultiPolygon) against a line / polygon meeting one of the last two members"}
 }
